@@ -79,6 +79,8 @@ fn gamma(a: f64) -> f64 {
     }
 }
 
+const ILOG_MAX_ITERATIONS: i64 = 64;
+
 pub fn eval(expr: Node) -> Result<Number, Box<dyn error::Error>> {
     use self::Node::*;
     match expr {
@@ -258,6 +260,9 @@ pub fn eval(expr: Node) -> Result<Number, Box<dyn error::Error>> {
             if sub_expr < -min_one.exp() {
                 return Err("The Lambert W function is not defined for {}.".into());
             }
+            if sub_expr == f64::INFINITY {
+                return Ok(Number::Float(f64::INFINITY));
+            }
             let iterations = (4).max((sub_expr.log10() / 3.0).ceil() as i32);
             let mut w: f64 = 0.0;
             for _ in 0..iterations {
@@ -280,6 +285,9 @@ pub fn eval(expr: Node) -> Result<Number, Box<dyn error::Error>> {
             };
             let mut x: i64 = 0;
             while n > 1.0 {
+                if x >= ILOG_MAX_ITERATIONS {
+                    return Err("The iterated logarithm does not converge for this base".into());
+                }
                 x += 1;
                 n = (n.log10() / b.log10()).floor();
             }
